@@ -59,6 +59,8 @@ TEMPLATES = {
     # objects written as literals in the template are made anew for every rendering: mutating them leaves no trace
     'mutable-literals': '<p tal:define="seen []; tab {\'k\': []}; st set()"><b tal:repeat="i xs">${seen.append(i)}${tab[\'k\'].append(x)}${st.add(i)}</b>'
                         '${seen}|${tab}|${sorted(st)}|${[1, 2].pop()}|${{\'a\': 1}.setdefault(\'b\', x)}</p>',
+    # byte strings among the values: decoded with the encoding in force for THAT rendering (the option, or the argument of the call)
+    'byte-values': '<p a="${bv}">${bv}</p><i tal:content="bv"/><b tal:repeat="i xs" tal:attributes="k bv">${x}</b>',
     # the parts of a translation block whose values mention each other's placeholders: filled in one pass, in one order
     'crossed-placeholders': '<p i18n:translate="">From <b i18n:name="sender">Ann (to ${\'$\'}{recipient}) ${x}</b> to <i i18n:name="recipient">Bob (cc ${\'$\'}{sender})</i>'
                             ' via <u i18n:name="via">${\'$\'}{sender}${\'$\'}{recipient}${\'$\'}{via}</u></p>',
@@ -66,7 +68,8 @@ TEMPLATES = {
 
 
 def make_args(x):
-    return {'x': x, 'xs': list(range(x % 4 + 1)), 'd': {'k': 'v%d' % x, 'title': 't'}, 'o': [{'a': [1, 2]}, (3, 4)]}
+    return {'x': x, 'xs': list(range(x % 4 + 1)), 'd': {'k': 'v%d' % x, 'title': 't'}, 'o': [{'a': [1, 2]}, (3, 4)],
+            'bv': ('caf\xe9 \u20ac%d' % x).encode('utf-8')}
 
 
 def snapshot(obj, seen=None):
@@ -105,11 +108,17 @@ def layer_histories(ctx, n):
                 t = PageTemplate(src)      # a separately compiled instance in the middle of the history
             args = make_args(x)
             before = snapshot(args)
+            # now and then a rendering names its own encoding for byte values: an argument of that call, nothing more
+            enc = rng.choice([None, None, None, 'latin-1', 'cp1251', 'utf-8'])
+            kw = {'encoding': enc} if enc else {}
             try:
-                out = t(**args)
+                out = t(**kw, **args)
             except Exception as e:
                 out = 'RAISED %s: %s' % (type(e).__name__, str(e).split('\n')[0][:80])
             after = snapshot(args)
+            if enc:
+                ctx.mon('renderings-with-an-encoding-argument')
+            x = (x, enc)
             ctx.mon('history-renders')
             ctx.mon('M-args')
             hist.append((x, hashlib.md5(out.encode()).hexdigest()[:8]))
@@ -117,9 +126,18 @@ def layer_histories(ctx, n):
                 ctx.violation('M-args:caller-arguments-modified',
                               'template %s modified its arguments: before %r after %r' % (name, before, after),
                               {'kind': 'args', 'template': name, 'x': x})
+            if step % 3 == 0 or name == 'byte-values':
+                try:
+                    ref = PageTemplate(src)(**kw, **make_args(x[0]))
+                except Exception as e:
+                    ref = 'RAISED %s: %s' % (type(e).__name__, str(e).split('\n')[0][:80])
+                ctx.mon('history-renders-compared-with-a-fresh-instance')
+                if ref != out:
+                    ctx.violation('history-differs-from-a-fresh-instance', 'template %s, (x, encoding argument)=%r after the history %r: rendered %r, '
+                                  'a fresh instance %r' % (name, x, hist, out, ref), {'kind': 'history', 'template': name, 'x': x})
             if x in seen and seen[x] != out:
                 ctx.violation('history-nondeterministic',
-                              'template %s, x=%d: earlier render %r, now %r (history %r)' % (name, x, seen[x], out, hist),
+                              'template %s, (x, encoding argument)=%r: earlier render %r, now %r (history %r)' % (name, x, seen[x], out, hist),
                               {'kind': 'history', 'template': name, 'x': x})
             seen.setdefault(x, out)
         ctx.case(key=('hist', name, tuple(h[0] for h in hist)), nontrivial=len(hist) >= 2)
